@@ -151,3 +151,17 @@ mod neon;
     httparse_simd_neon_intrinsics,
 ))]
 pub use self::neon::*;
+
+#[cfg(all(
+    httparse_verif,
+    httparse_simd,
+    not(any(
+        httparse_simd_target_feature_sse42,
+        httparse_simd_target_feature_avx2,
+    )),
+    any(
+        target_arch = "x86",
+        target_arch = "x86_64",
+    ),
+))]
+pub use self::runtime::verif as verif_runtime;
